@@ -1,6 +1,7 @@
 // C01 — scaled_integer + - * and unary minus are exact real arithmetic on rep x radix^exponent
 #pragma once
 #include "../scaledval.h"
+#include "../sweep.h"
 
 namespace c01 {
 using namespace vf;
